@@ -190,8 +190,8 @@ def apply_op(s, c):
         t = s.copy()
         t.fmt, t.bh, t.bw = "csr", 1, 1
         if s.fmt == "cscr":
-            if s.nnz() == 0 or not all(s.row_has()):
-                return t, "defect:D6:cscr->csr of a matrix with an empty row aborts"
+            if s.nnz() == 0:
+                return t, "defect:D10:cscr->csr of an entry-free matrix aborts (XASSERT used_elements > 0)"
         return t, None
     if op == "tobanded":
         if s.fmt not in ("csr", "banded"):
@@ -211,8 +211,7 @@ def apply_op(s, c):
         t = s.copy()
         t.fmt = "cscr"
         if s.fmt == "csr":
-            if s.nnz() == 0:
-                return t, "defect:D3:csr->cscr of an entry-free matrix crashes"
+            pass        # an entry-free source yields the entry-free CSCR matrix (D3, fixed in /repo by 59f054b00)
         return t, None
     if op == "clone":
         m = c.nat()
@@ -262,10 +261,7 @@ def apply_op(s, c):
         bh, bw = (s.bh, s.bw) if s.fmt == "bcsr" else (1, 1)      # BCSR: permutations of the block rows / columns
         if len(p) != s.rows // bh or len(q) != s.cols // bw:
             return s.copy(), "abort:permutation size does not match the matrix (XASSERTM)"
-        t = s.copy()
-        if s.nnz() == 0:
-            return t, ("defect:D1:permute of an entry-free matrix crashes" if s.fmt == "csr" else
-                       "defect:D9:BCSR permute of an entry-free matrix crashes")
+        t = s.copy()       # (an entry-free matrix is its own permutation: D1 / D9, fixed in /repo by 59f054b00)
         P = [p[i // bh] * bh + i % bh for i in range(s.rows)]
         Qc = [q[j // bw] * bw + j % bw for j in range(s.cols)]
         t.M = [[s.M[P[i]][Qc[j]] for j in range(s.cols)] for i in range(s.rows)]       # B(i,j) = A(pr i, pc j)
@@ -621,9 +617,8 @@ CORPUS = [
     "32 csr 2 2 3 0 1 2 2 0 1 2 1/1 2/1 1 perm 1 0 2 0 1",      # specified abort (size mismatch)
 ]
 
-# regression cases of repaired defects (D2: csr->cscr with an empty row before a non-empty one, fixed by ed19cf584;
-# D4: bcsr transpose of an entry-free matrix, fixed by 0f251956b) and one input per open known finding
-# (c02-edge:D1, D3, D5, D6, D7 of KNOWN_FINDINGS.json) - all executed and judged on every run
+# regression cases of repaired defects (D2 ed19cf584, D4 0f251956b, D8 5f789ddc8, D6 3df59c4a0, D1 / D3 / D9 59f054b00)
+# and one input per open known finding (c02-edge:D5, D7, D10 of KNOWN_FINDINGS.json) - all executed and judged on every run
 CORPUS += [
     "64 csr 3 3 4 0 0 1 2 2 1 2 2 5/1 7/1 1 tocscr",
     "32 csr 4 3 5 0 0 2 2 3 3 0 2 1 3 1/2 1/3 1/5 3 tocscr clone 3 it",
@@ -663,7 +658,10 @@ CORPUS += [
     "32 csr 2 3 3 0 2 3 3 0 2 1 3 1/3 -2/7 123456789/1000 2 dt it",
     "32 dense 2 2 4 1/3 16777217/1 -33554435/2 5/1 2 dt tri",
     "32 banded 3 4 2 1 3 6 1/10 2/3 3/1 4/1 5/1 1/1048577 1 dt",
-    "32 bcsr 2 3 2 2 0 0 0 1 perm 2 1 0 2 1 0",               # c02-edge:D9
+    "32 bcsr 2 3 2 2 0 0 0 1 perm 2 1 0 2 1 0",               # D9 (fixed)
+    "64 cscr 5 4 3 0 2 3 3 0 3 1 3 1/2 1/3 1/5 2 1 3 3 tocsr tr tocscr",     # D6 (fixed): rows 0, 2, 4 empty
+    "32 csr 2 3 0 0 0 3 perm 2 1 0 3 2 0 1 tocscr clone 3",               # D1 / D3 (fixed) in one chain
+    "64 cscr 0 3 0 0 0 0 1 tocsr",                                        # c02-edge:D10
     "32 csr 2 3 0 0 0 1 graphz",                               # c02-edge:D5
     # cross-type clones (seeded change missed before: weak clone across index types aliasing the source's values)
     "32 csr 2 3 3 0 2 3 3 0 2 1 3 1/3 2/1 3/1 3 xclone 0 1 2 xclone 0 1 0 xclone 1 1 3",
@@ -1108,17 +1106,16 @@ def signature(case, out, why):
 
 
 def model_filter(case):
-    """the Lean model shows the intended result where the real code crashes (D1, D3, D5); it reproduces the aborts
-    of D6 / D7"""
+    """the Lean model reproduces the aborts of D7 / D10 and the crash of D5 for `graph`"""
     if is_vec(case):
         return True
     try:
         it, states, ops, tag, k = simulate(case)
     except Exception:
         return True
-    if tag is not None and tag.startswith("defect:") and tag.split(":")[1] in ("D1", "D3", "D5", "D9"):
-        # `Mat.stepCode` reproduces the crash for the plain operations; the aliased / extension variants do not
-        return ops[k][0] in ("perm", "tocscr", "graph") and tag.split(":")[1] != "D9"
+    if tag is not None and tag.startswith("defect:") and tag.split(":")[1] == "D5":
+        # `Mat.stepCode` reproduces the crash of the plain `graph` operation; the `graphz` variant shows the intended result
+        return ops[k][0] == "graph"
     return True
 
 
@@ -1166,8 +1163,8 @@ def main(argv):
         "round-to-nearest-even to 24 bits (what mpq_get_d and the C cast do); exponent range not exercised",
         "index-type round trip u32 <-> u64: every index that can occur is < 2^32 (dimensions of allocatable matrices), "
         "the model passes them through mod 2^32 (C02.stepX_itx_eq: identity when they fit)",
-        "input classes of the open known findings c02-edge:D1/D3/D5/D6/D7/D9 are generated and judged; where the real "
-        "code crashes (D1, D3, D5, D9) the Lean model shows the intended result and is not compared",
+        "input classes of the open known findings c02-edge:D5/D7/D10 are generated and judged (the model of the code "
+        "as it is reproduces them, except D5 through `graphz`)",
         "a target that is a shallow clone of the source may show the result in the source as well (documented sharing "
         "of the data arrays); every other source must be unchanged after a two-argument member call"],
         extra_cov={"rule": stats_rule})
